@@ -671,6 +671,72 @@ fn late_accept_case(st: &mut Stats, seed: u64) {
     }
 }
 
+/// A stream request whose future the application drops while its Connect is unanswered (a time-out around the open, a cancelled
+/// task), and a peer that then acknowledges it: the peer holds a stream nobody has on this side. It has to learn that - by a
+/// Reset of the flow, or because the connection ends - before things go quiet; it must not be left with a stream that will never
+/// carry anything nor end.
+fn cancelled_open_case(st: &mut Stats, seed: u64) {
+    st.evaluations += 1;
+    st.engine("SIM", 1);
+    let mut rng = Rng64::new(mix(seed, 0xCA7));
+    let cfg = EpCfg { rwnd: *rng.pick(&[2u32, 4, 16]), thr: 1, ..EpCfg::default() };
+    let sh = sim::Shared::new(mix(seed, 4), rng.below(4) as u8);
+    let kind = "cancelled-open";
+    let answer_reset = rng.chance(1, 4);
+    let end = sim::run(&sh, move |sh| async move {
+        let (w0, w1, _net) = memws::pair(&sh, [0, 0], [None, None], true);
+        let e0 = wl::endpoint(&sh, 0, &cfg, w0, seed);
+        let mut raw = Raw::new(w1);
+        let m = e0.mux.clone();
+        let opener = sim::spawn(&sh, 7101, async move { m.new_stream_channel(b"c7.", 9).await.map(|_| ()).map_err(|e| wl::err_name(&e)) });
+        // wait for the Connect, then abandon the request
+        let mut id = None;
+        for g in raw.drain().await {
+            if let Got::Frame(RefFrame::Connect { id: i, .. }) = g {
+                id = Some(i);
+            }
+        }
+        opener.abort();
+        opener.await.ok();
+        let Some(id) = id else { return (None, vec![], false) };
+        // the peer answers only now
+        if answer_reset {
+            raw.send(&RefFrame::Reset { id }).await;
+        } else {
+            raw.send(&RefFrame::Ack { id, n: 4 }).await;
+        }
+        let after = raw.drain().await;
+        // is the endpoint still usable, or has the connection ended?
+        let ended = after.iter().any(|g| matches!(g, Got::Close | Got::End | Got::Err));
+        drop(e0.mux);
+        raw.drain().await;
+        raw.close().await;
+        e0.task.await.ok();
+        (Some(id), after, ended)
+    });
+    let log = sh.take_log();
+    match end {
+        sim::RunEnd::Finished((Some(id), after, ended)) => {
+            st.target("cancelled_open_runs", 1);
+            st.nontrivial(mix(sh.hash(), u64::from(id)));
+            if !answer_reset {
+                let told = after.iter().any(|g| matches!(g, Got::Frame(RefFrame::Reset { id: i }) if *i == id));
+                st.count(if ended { "cancelled_open_connection_ended" } else if told { "cancelled_open_reset_sent" } else { "cancelled_open_silent" }, 1);
+                if !told && !ended {
+                    viol(st, format!("acknowledged-stream-abandoned-silently|{kind}"), format!("the application dropped its stream request; the peer then acknowledged flow {id:x}: it received neither a Reset of that flow nor the end of the connection - it keeps a stream that exists on its side only (frames seen afterwards: {after:?})"), kind, seed, &log);
+                }
+            }
+        }
+        sim::RunEnd::Finished((None, _, _)) => st.inconclusive.push(format!("c07 {kind} {seed}: Connect frame not seen")),
+        sim::RunEnd::Stalled => viol(st, format!("stall|{kind}"), "stalled".into(), kind, seed, &log),
+        sim::RunEnd::Panicked(m) => st.inconclusive.push(format!("harness panic in c07 {kind}: {m}")),
+    }
+    let an = monitors::analyse(&log, &[Fam::Panic], &Meta::default());
+    for f in an.findings {
+        viol(st, format!("{}|{kind}", f.sig), f.detail, kind, seed, &log);
+    }
+}
+
 pub fn run(p: &Params) -> (Stats, &'static str) {
     std::panic::set_hook(Box::new(|_| {}));
     sim::install_observer();
@@ -692,6 +758,13 @@ pub fn run(p: &Params) -> (Stats, &'static str) {
     let n = p.share(if p.tier_thorough { SPEC.runs_thorough } else { SPEC.runs_quick });
     for i in 0..n {
         let seed = mix(base, i);
+        if i % 16 == 1 {
+            cancelled_open_case(&mut st, seed);
+            if st.too_many_violations() {
+                break;
+            }
+            continue;
+        }
         if i % 16 == 9 {
             late_accept_case(&mut st, seed);
             if st.too_many_violations() {
